@@ -33,8 +33,8 @@ FRAC_MAX = 0.95
 # number of 2*pi wraps removed.  The implementation adds float32(2*pi*k) to the input and subtracts a
 # float32 mean, so its error is ~ulp32(2*pi*k) + ulp32(|out|), about 1e-6*(1+|k|).  Measured on the
 # pinned tree (quick tier, seeds 1, 2, 3, 7, 11, 12, 12345; the worst value is recorded in the evidence
-# as extra.max_err_over_1_plus_k:*): float32 input <= 1.2e-6, float64 input <= 4.1e-7 (offsets are
-# float32 either way), bf route <= 1.3e-6.  1e-4 leaves ~80x head-room; a wrong unwrap is off by 2*pi
+# as extra.max_err_over_1_plus_k:*): float32 input <= 1.9e-6, float64 input <= 7.2e-7 (offsets are
+# float32 either way), bf route <= 1.3e-6 (incl. 8 soak seeds x 5333 cases).  1e-4 leaves ~50x head-room; a wrong unwrap is off by 2*pi
 # (6.28), so the head-room hides nothing.
 TOL_BASE = 1e-4
 
@@ -735,7 +735,7 @@ def check(ctx, case):
 def search(ctx):
     # strata (each its own Hypothesis run, so no class can be starved by the generator's biases)
     body = lambda c: check(ctx, c)  # noqa: E731
-    core.run_given(ctx, "grid", cases("direct", masked=False, inputs=("wrapped", "wrapped", "wrapped", "unwrapped")), body, ctx.n(250, 1200))
+    core.run_given(ctx, "grid", cases("direct", masked=False, inputs=("wrapped", "wrapped", "wrapped", "unwrapped")), body, ctx.n(200, 1200))
     core.run_given(ctx, "masked", cases("direct", masked=True), body, ctx.n(580, 3000))
     core.run_given(ctx, "fixedpoint", cases("direct", masked=True, inputs=("unwrapped",)), body, ctx.n(300, 1200))
     core.run_given(ctx, "bf", cases("bf"), body, ctx.n(270, 1200))
